@@ -92,7 +92,7 @@ PROPERTIES = {
               "Plane-wave convention, index matrices and the translation operator are separate engine-A obligations (see evidence).",
         note="the FFT is an assumed contract (DFT matrix, F Fbar = N, scipy's norm modes); gather/scatter on the cut-off sphere as S^H S = 1; "
              "the symbolic Atoms state (Gk2, Gk2c, active, Omega) is the state contract of Atoms.build; in-house NC normaliser trusted (canary)",
-        modules=["contracts.c03"],
+        modules=["contracts.c03", "contracts.c03_sample"],
         level="proof",
         trusted_base=BASE_TRUST + ["in-house non-commutative normaliser (engine N)"],
         assumptions=["scipy.fft.fftn/ifftn = multiplication by the DFT matrix with the documented norm scalings (assumed contract 'fft')",
